@@ -150,6 +150,12 @@ fn skeleton() -> Document {
     }
     put(864, d(vec![("Names", arr(vec![lit("leaf"), arr(vec![r(4), name("Fit")])]))]));
     put(964, d(vec![("Title", lit("last")), ("Dest", arr(vec![r(4), name("Fit")]))]));
+    // array-headed recursive structures: colour-space arrays whose base colour space leads back into the array
+    put(700, arr(vec![name("Indexed"), r(700), Object::Integer(1), lit("xx")]));
+    put(701, arr(vec![name("Indexed"), r(702), Object::Integer(1), lit("xx")]));
+    put(702, arr(vec![name("Indexed"), arr(vec![name("Indexed"), r(701), Object::Integer(1), lit("xx")]), Object::Integer(1), lit("xx")]));
+    put(703, arr(vec![name("ICCBased"), r(703)]));
+    put(704, arr(vec![name("Separation"), name("Spot"), r(704), r(704)]));
     doc.objects = o;
     doc.max_id = 964;
     doc.trailer.set("Root", r(1));
@@ -254,7 +260,7 @@ fn slot<'a>(o: &'a mut Object, path: &[String]) -> Option<&'a mut Object> {
     }
 }
 
-const N_FIXED_SHAPES: usize = 48;
+const N_FIXED_SHAPES: usize = 56;
 
 /// Shapes 0..17 are fixed values; shape 100+k is a reference to skeleton object k.
 fn shape(code: usize, site: &Site) -> Option<Object> {
@@ -306,6 +312,15 @@ fn shape(code: usize, site: &Site) -> Option<Object> {
         45 => d(vec![("Dests", r(800)), ("Kids", arr(vec![r(800), r(800)]))]),
         46 => r(900),
         47 => d(vec![("First", r(900)), ("Last", r(964)), ("Count", Object::Integer(2)), ("Kids", arr(vec![r(900)]))]),
+        // colour-space-like arrays that contain themselves through a reference
+        48 => arr(vec![name("Indexed"), r(700), Object::Integer(1), lit("xx")]),
+        49 => r(700),
+        50 => arr(vec![name("Indexed"), r(701), Object::Integer(255), lit("xx")]),
+        51 => r(702),
+        52 => arr(vec![name("ICCBased"), r(703)]),
+        53 => r(704),
+        54 => arr(vec![name("Indexed"), name("DeviceRGB"), Object::Integer(1), lit("xx")]),
+        55 => arr(vec![name("Indexed")]),
         k if k >= 200 => {
             // whole-stream replacement: plain content from the operator/operand menu
             let menu = content_menu();
@@ -678,6 +693,14 @@ fn shape_label(code: usize) -> String {
         45 => "<</Dests shared-name-tree /Kids [..]>>".into(),
         46 => "ref-to-shared-outline-items(2^64 paths)".into(),
         47 => "<</First shared-outline-items ..>>".into(),
+        48 => "[/Indexed ref-to-self-containing-Indexed-array 1 (xx)]".into(),
+        49 => "ref-to-self-containing-Indexed-array".into(),
+        50 => "[/Indexed ref-into-2-cycle-of-Indexed-arrays 255 (xx)]".into(),
+        51 => "ref-into-2-cycle-of-Indexed-arrays".into(),
+        52 => "[/ICCBased ref-to-self-containing-array]".into(),
+        53 => "ref-to-self-containing-Separation-array".into(),
+        54 => "[/Indexed /DeviceRGB 1 (xx)]".into(),
+        55 => "[/Indexed]".into(),
         k if k >= 200 => format!("stream-content:{}", String::from_utf8_lossy(&content_menu()[(k - 200) % content_menu().len()])),
         k => format!("ref-to-obj{}", k - 100),
     }
@@ -757,7 +780,7 @@ fn main() {
     }
     run.rule(
         "well-formed skeleton document containing everything the queries read; a site is every dictionary entry / array element / whole object \
-         of the skeleton (superset of the keys the query code reads); 1 deviation: every site x 44 value shapes (incl. long strings with a multi-byte character around byte 64, reference chains of 126..130 and 200 hops, a 130-cycle, acyclic name trees / outline items with 2^64 paths through shared nodes) (also inserted under each of 22 query-relevant keys a dictionary lacks) (nine kinds, extremes, arrays, \
+         of the skeleton (superset of the keys the query code reads); 1 deviation: every site x 56 value shapes (incl. long strings with a multi-byte character around byte 64, reference chains of 126..130 and 200 hops, a 130-cycle, acyclic name trees / outline items with 2^64 paths through shared nodes) (also inserted under each of 22 query-relevant keys a dictionary lacks) (nine kinds, extremes, arrays, \
          dangling / cyclic / wrong-kind references, entry removed) plus every site x a reference to every object of the skeleton (all link cycles); \
          2 deviations (thorough): all pairs over the sites named by a key the query code reads; every case runs all 22 query groups in an isolated \
          worker; non-trivial = the mutation changes the skeleton (site exists); cases distinct by construction",
